@@ -7,6 +7,6 @@ CONSTANTS
   Gen = FALSE
   Seed = 1
   RandN = 1
-  OpenDevs = {"DialIgnoresFailOpen", "NilConnPanic", "QuarantineMasksReject", "ReplyCodeUnchecked", "NegFailLeaksConn"}
+  OpenDevs = {"DialIgnoresFailOpen", "NilConnPanic", "QuarantineMasksReject", "ReplyCodeUnchecked"}
 CHECK_DEADLOCK FALSE
 POSTCONDITION Post
